@@ -101,6 +101,22 @@ chk("C12", "proof",
     "Coq proof over abstract engine; generated no-shared-state obligation; union law by enumeration",
     "DESIGN.md section 4 C12")
 
+chk("C15", "proof",
+    "Proved (Coq, closed under the global context) over Model/Runner.v (the per-file loop and its error handling, shared with C18) for every "
+    "mode, flag and list of per-file outcomes: a failure in any processed file ends the run in the system-error category; under continue-on-"
+    "error the output with a failing file is the output without it plus that file's own events (every other file as if it were absent); without "
+    "it the run stops at the first failing file; the error names the file for plug-in failures, undecodable files and (under continue-on-error) "
+    "parser failures - refuted, with witness, for a parser failure without continue-on-error (known finding). Over Model/WriteBack.v: the "
+    "write-back protocol of the repaired code (sibling file + os.replace) leaves the old or the new content whenever the process dies, for every "
+    "content, partition into parts and crash point; the protocol before the repair (copy over the destination) is refuted. Tied to the code by "
+    "fault enumeration: outcome vectors of <=3 files incl. a parser crash after a pragma line, a fault at every callback invocation of every file "
+    "position, scan/fix, with/without continue-on-error, each compared with the run without the failing file; process death at every step of the "
+    "write-back in a child process; temp and working directories listed after every run.",
+    "Trusted: Coq kernel + vm_compute, fault plug-in, crash launcher (wraps shutil/os functions only), in-process CLI driver. Modelled rather "
+    "than verified: OS file semantics (rename atomicity is assumed by the model's Rename step), what happens inside a pass.",
+    "Coq proof over hand models; correspondence and fault enumeration at every callback invocation and write-back step",
+    "DESIGN.md section 4 C15")
+
 NOT_YET = {}
 
 
